@@ -228,4 +228,35 @@ CHECKS = {
                          "spec monitor: coq/theories/Spec/C15Spec.v (mon_step, fresh_ok, field_ok, fdt_ok)",
                          "harness protocol: an object is recognised on the wire by its payload marker; 'run to idle' ends every started transfer"],
     },
+    "C06": {
+        "runs": [{"subcmd": "wire", "shards_quick": 4, "shards_thorough": 8}],
+        "rule": "BL lines: push_lct_header over the exhaustive grid of width classes flute can select (CCI 0..8 x TSI 0..3 x TOI 0..7 "
+                "16-bit groups) x close flags x PSI, boundary/seeded values inside each class, plus out-of-range TSI/TOI. "
+                "NT lines: system_time_to_ntp/ntp_to_system_time on instants 1970..NTP era end (boundaries, any nanosecond), plus before "
+                "the epoch and after the era. BP lines: new_alc_pkt for 6 FEC schemes x {FDT, 16-bit TOI, wide TOI} x all 128 "
+                "combinations of (inband FTI, inband CENC, SCT, close, profile, CENC value), FTI/payload-id values at the scheme's "
+                "boundaries (L up to 2^48-1 / 2^40-1, E, B, max_n, Z, N, Al, SBN/ESI ranges), plus values outside the ranges. "
+                "R lines: packets produced by the extracted Gallina RFC ENCODER (ocaml/build/c06_driver --encode) for all 64 (C,S,O,H) "
+                "classes x all 64 subsets of {EXT_FDT, EXT_CENC, EXT_TIME, EXT_FTI, unknown short, unknown long (HEL up to 255)} x 8 "
+                "codepoints (6 supported, 2 unknown; rotating in the quick tier, full product in the thorough tier), versions 1/2, "
+                "PSI/reserved bits set, values narrower than their fields, extensions in random order, fed to parse_alc_pkt / "
+                "parse_payload_id / get_sender_current_time. M lines: byte mutations of valid packets (model correspondence incl. "
+                "panics). A case is non-trivial when it lies inside the property's ranges (BP: build_in_range; R: wf_pkt && "
+                "parse_demand; BL: a non-minimal width class; M: the mutated packet still parses); distinct = distinct input lines.",
+        "exhaustive_quick": True, "exhaustive_thorough": True,
+        "level_text": "Theorems C06_* (28, closed): push_lct_header / parse_lct_header / get_ext, EXT_FDT / EXT_CENC / EXT_TIME with the NTP conversion, the EXT_FTI and FEC payload-ID codecs of the six schemes and whole packets (new_alc_pkt / parse_alc_pkt) are proved equal to RFC layout tables interpreted by a generic pack/unpack (an independent Gallina RFC encoder and decoder), round-trip, and accept every RFC-conformant header incl. unknown / long extensions; tied to lct.rs / alc.rs / alccodec by build (flute bytes vs RFC decoder) and parse (RFC encoder bytes into flute) runs over all width classes. Recorded finding D32: Raptor EXT_FTI layout.",
+        "explanation": "Theorems C06_* (Properties/C06.v) are proved for all inputs on Gallina models of lct.rs, alc.rs, alccodec/*.rs and "
+                       "tools/mod.rs against RFC layout figures interpreted by a generic pack/unpack (Spec/C06Spec.v, which uses no "
+                       "function of the model). Build direction: the bytes the real code produces must equal the model's bytes and "
+                       "must be decoded by the extracted RFC decoder to the input's values (P_C06_build/P_C06_lct/P_C06_ntp). Parse "
+                       "direction: the extracted RFC encoder produces the bytes, flute's parser must return the packet's values "
+                       "(P_C06_parse) and agree with the model's parser.",
+        "assumptions": ["models of lct.rs/alc.rs/alccodec/*.rs/tools/mod.rs are hand-written; faithfulness established by the correspondence run only",
+                        "RFC figures (5651, 5775, 6726, 5445, 5510, 6330, 5053) transcribed by hand into Spec/C06Spec.v; RFC 5053 3.2.2 "
+                        "(48-bit transfer length, 16 reserved bits, no padding) transcribed from memory, no copy of the RFC on this machine",
+                        "D03 and D21 are fixed in /repo (58e0404, 56a937d); the unfixed variants are kept in the model and refuted (C06_D03/D21_*_refuted_unfixed)", "D32 (Raptor, FEC id 1, EXT_FTI uses the RFC 6330 figure) is a recorded finding: the model mirrors the code as it is, the theorems C06_spec_*_holds / C06_new_alc_pkt_is_rfc / C06_alc_pkt_roundtrip exclude exactly the class Known_D32 (packet carries an EXT_FTI of FEC id 1), the driver reports predicate failures in that class as KNOWN D32"],
+        "trusted_base": ["model: coq/theories/Model/{Bytes,AlcTypes,Lct,Ntp,Alc}.v",
+                         "RFC side: coq/theories/Spec/C06Spec.v (layout figures, rfc_alc_encode, rfc_alc_decode, P_C06_*)",
+                         "the harness obtains RFC-encoded packets by running ocaml/build/c06_driver --encode (extracted rfc_alc_encode)"],
+    },
 }
